@@ -110,7 +110,7 @@ extern "C" void harness_c15_adds() {
 
 // ------------------------------------------------------------------------------------------------------------------------
 // inherited deletion / swap / garbage collection keep the shape invariants (one operation from ops.h, then re-check)
-template <unsigned I> struct OpCase { static __attribute__((noinline)) void run() {
+static __attribute__((noinline)) void op_case(unsigned I) {
   const unsigned base = v_param(0), mode = v_param(1), op = v_param(2), chunk = v_param(3);
   TetMesh m;
   set_mode(m, mode);
@@ -124,7 +124,8 @@ template <unsigned I> struct OpCase { static __attribute__((noinline)) void run(
   Snap s; take_snapshot(m, s);
   check_shape(m, s);
   v_witness("C15 ops case end");
-} };
+}
+template <unsigned I> struct OpCase { static __attribute__((noinline)) void run() { op_case(I); } };
 
 extern "C" void harness_c15_ops() {
   unsigned sel = v_nondet_u32();
